@@ -1,6 +1,7 @@
 package props
 
 import (
+	"strings"
 	"bytes"
 	"context"
 	"fmt"
@@ -254,6 +255,9 @@ func newPopulated(env *core.Env, name string, items []treeItem) (*populated, err
 }
 
 func isMountName(p string) bool {
+	if strings.HasSuffix(p, "x") {
+		return false // "m0003x": an ordinary directory next to the mount point m0003, sharing its name as a prefix
+	}
 	for i := len(p) - 1; i >= 0; i-- {
 		if p[i] == '/' {
 			return i+1 < len(p) && p[i+1] == 'm'
